@@ -461,6 +461,8 @@ func (g *replayGen) goExpr(e Expr) string {
 				return "verif_" + id.name + "(" + strings.Join(args, ", ") + ")"
 			case "real":
 				return "float64(" + args[0] + ")"
+			case "merged":
+				return args[0]
 			case "ite":
 				return "verifIte(" + strings.Join(args, ", ") + ")"
 			case "len":
@@ -798,8 +800,18 @@ func replayOnRealCode(e *Engine, o *Obligation) map[string]interface{} {
 		}
 	}
 	var ev strings.Builder
-	for _, l := range ct.lets {
-		fmt.Fprintf(&ev, "\t\t%s := %s\n\t\t_ = %s\n", l.name, g.goExpr(l.expr), l.name)
+	for _, sst := range ct.script {
+		switch sst.kind {
+		case "let":
+			l := sst.let
+			if dt, ok := o.letDyn[l.name]; ok {
+				fmt.Fprintf(&ev, "\t\t%s, _ := (%s).(%s)\n\t\t_ = %s\n", l.name, g.goExpr(l.expr), g.typeStr(dt), l.name)
+			} else {
+				fmt.Fprintf(&ev, "\t\t%s := %s\n\t\t_ = %s\n", l.name, g.goExpr(l.expr), l.name)
+			}
+		case "do":
+			fmt.Fprintf(&ev, "\t\t%s\n", g.goExpr(sst.let.expr))
+		}
 	}
 	// preconditions and the failing clause
 	var pre []string
